@@ -1,5 +1,7 @@
 import VModel.PredictorSer
 import VProofs.Lemmas.BinModel
+import VProofs.Lemmas.SerCanon
+import VProofs.Lemmas.SerEnvelope
 /-!
 # C14 — A serialised predictor behaves exactly like the original
 
@@ -10,14 +12,14 @@ open V.Bin
 
 /-- a weight vector survives the wire (trailing zeros trimmed, then re-padded): same vector, same length -/
 theorem C14_weightvector (cfg : Cfg) (l : List Int) :
-    (WV.ofList cfg l).reser cfg = WV.ofList cfg l := by
-  sorry
+    (WV.ofList cfg l).reser cfg = WV.ofList cfg l :=
+  C14L.ofList_reser cfg l
 
 /-- every predictor built from a model is a fixed point of serialise → deserialise (plain, cached and tagged scorer
 variants; every build configuration) … -/
 theorem C14_roundtrip (cfg : Cfg) (m : WModel) (pt : Bool) (p : Predictor) (hp : Predictor.new cfg m pt = .ok p) :
-    p.reser cfg = p := by
-  sorry
+    p.reser cfg = p :=
+  C14L.new_reser hp
 
 /-- … hence it gives identical scores, boundaries, tags and tag scores on every sentence, whatever the score-storing flag -/
 theorem C14_same_behaviour (cfg : Cfg) (m : WModel) (pt : Bool) (p : Predictor) (hp : Predictor.new cfg m pt = .ok p)
@@ -26,12 +28,78 @@ theorem C14_same_behaviour (cfg : Cfg) (m : WModel) (pt : Bool) (p : Predictor) 
         = ({ p with storeTagScores := store } : Predictor).predict pid s ∧
     ({ p.reser cfg with storeTagScores := store } : Predictor).predictTags s
         = ({ p with storeTagScores := store } : Predictor).predictTags s := by
-  sorry
+  rw [C14_roundtrip cfg m pt p hp]
+  exact ⟨rfl, rfl⟩
 
 /-- the outer record decides the consumed length: decoding `serialised ++ rest` returns the record and exactly `rest`,
 for arbitrary scorer blobs and arbitrary trailing bytes -/
 theorem C14_remainder (e : Envelope) (h : EnvOK e) (rest : Bytes) :
-    decEnvelope (encEnvelope e ++ rest) = .ok (e, rest) := by
-  sorry
+    decEnvelope (encEnvelope e ++ rest) = .ok (e, rest) :=
+  C14L.decEnvelope_rt h rest
+
+/-! ## non-vacuity -/
+
+section NonVacuity
+
+/-- inner zeros are kept, trailing zeros are trimmed on the wire and re-padded to 8 entries -/
+example : (WV.ofList {} [1, 0, 2, 0, 0]).wire = [1, 0, 2] := by decide
+example : (WV.ofList {} [1, 0, 2, 0, 0]).reser {} = .fixed [1, 0, 2, 0, 0, 0, 0, 0] := by decide
+/-- without `fix-weight-length` (or beyond 8 entries) the vector goes through untouched, trailing zeros included -/
+example : (WV.ofList { fixed := false } [1, 0, 2, 0, 0]).reser { fixed := false } = .variable [1, 0, 2, 0, 0] := by decide
+example : (WV.ofList {} [1, 0, 2, 0, 0, 0, 0, 0, 0]).reser {} = .variable [1, 0, 2, 0, 0, 0, 0, 0, 0] := by decide
+/-- the fixed point property is about vectors built by `From<Vec<i32>>`: an ill-formed `Fixed` vector is repaired -/
+example : (WV.fixed [1, 0]).reser {} ≠ .fixed [1, 0] := by decide
+
+private def exModel : WModel :=
+  { charNgrams := [⟨['a'], [1, 0, 2, 0]⟩, ⟨['a', 'b'], [0, 0, 3]⟩], typeNgrams := [⟨[1], [4, 0]⟩],
+    dict := [⟨['a', 'b'], [5, 0, 0], []⟩], bias := 7, charW := 2, typeW := 2,
+    tagModels := [⟨['a'], [[['x'], ['y']]], [⟨['a'], [⟨0, [1, 0]⟩]⟩], [⟨[1], [⟨1, [0, 2, 0]⟩]⟩], [3, 0]⟩] }
+
+/-- the hypothesis of `C14_roundtrip` is satisfiable: tagged, cached and variable-length builds all succeed -/
+example : (Predictor.new {} exModel true).isOk = true
+    ∧ (Predictor.new {} exModel false).isOk = true
+    ∧ (Predictor.new { fixed := false, cache := false } exModel true).isOk = true := by decide
+
+example : ∃ p, Predictor.new {} exModel true = .ok p ∧ p.reser {} = p := by
+  cases h : Predictor.new {} exModel true with
+  | ok p => exact ⟨p, rfl, C14_roundtrip _ _ _ p h⟩
+  | err e => have : (Predictor.new {} exModel true).isOk = true := by decide
+             rw [h] at this; cases this
+  | panic e => have : (Predictor.new {} exModel true).isOk = true := by decide
+               rw [h] at this; cases this
+  | ub e => have : (Predictor.new {} exModel true).isOk = true := by decide
+            rw [h] at this; cases this
+
+private def exEnv : Envelope :=
+  { charScorer := some [1, 2, 3], typeScorer := none, bias := -5,
+    tagPredictor := some [(['a'], 0, ⟨[[['x'], ['y']]], [3, -4]⟩)], nTags := 1 }
+
+/-- a tiny envelope followed by two trailing bytes: the record and exactly the trailing bytes come back -/
+example : decEnvelope (encEnvelope exEnv ++ [9, 9]) = .ok (exEnv, [9, 9]) := by decide
+/-- a truncated envelope is an error, not a panic -/
+example : decEnvelope ((encEnvelope exEnv).take 10) = .err .decode := by decide
+
+/-- the hypothesis of `C14_remainder` is satisfiable -/
+example : EnvOK exEnv where
+  bias := by decide
+  nTags := by decide
+  ids := by
+    intro l hl x hx
+    simp only [exEnv, Option.some.injEq] at hl
+    subst hl
+    simp only [List.mem_singleton] at hx
+    subst hx
+    decide
+  i32 := by
+    intro l hl x hx w hw
+    simp only [exEnv, Option.some.injEq] at hl
+    subst hl
+    simp only [List.mem_singleton] at hx
+    subst hx
+    simp only [List.mem_cons, List.not_mem_nil, or_false] at hw
+    rcases hw with rfl | rfl <;> decide
+  size := by decide
+
+end NonVacuity
 
 end V
